@@ -139,7 +139,7 @@ def run(run):
     XP.run_translator_validation(run, PROG, every=8 if run.tier == 'quick' else 1)
     quick = run.tier == 'quick'
     L = 2 if quick else 3
-    run.bounds = {'text -> value': f'delimited forms (raw string, quoted identifier, JSON literal) with 1..{L} symbolic Unicode scalar values between the delimiters, plus escape-heavy templates (backslash + symbolic character, nested quotes in literals, \\uXXXX forms)',
+    run.bounds = {'text -> value': f'delimited forms (raw string, quoted identifier, JSON literal) with 1..{L} symbolic Unicode scalar values between the delimiters, plus pairs of lexemes with the same body under different delimiters, \\u escapes at the edges of the surrogate ranges, escape-heavy templates (backslash + symbolic character, nested quotes in literals, \\uXXXX forms)',
                   'value -> text -> value': f'every content of exactly 0..{L} Unicode scalar values: raw-string spelling (only \\\' is an escape), quoted-identifier spelling and JSON string literal spelling',
                   'identifiers': 'a committed list of 12 member names (ASCII, non-ASCII, empty, with quote/backslash/newline/astral) in unquoted, quoted and \\u-escaped spelling'}
     run.outside = [f'contents longer than {L} characters', 'JSON literals other than strings are compared only through the JSON model (numbers/containers: C08)']
@@ -158,6 +158,16 @@ def run(run):
         alpha = ('set', '\\' + q + 'a')
         for n in (3, 4, 5): specs.append([q] + [alpha] * n + [q])
         specs.append([q] + [alpha] * 4)
+    # the same body under two different delimiters in one expression (each lexeme must be decoded by its own rule), with a symbolic body character as well
+    for a_, b_ in (("'", '`'), ('`', "'"), ('"', '`'), ('`', '"'), ("'", '"')):
+        for body in ('1', 'null', '"a"', 'true'):
+            if (a_ == '"' or b_ == '"') and body == '"a"': continue
+            specs.append(list(a_ + body + a_ + ' ' + b_ + body + b_))
+    specs += [["'", ('set', '1ntx'), "'", ' ', '`', ('set', '1ntx'), '`']]
+    # \u escapes at the edges of the surrogate ranges (pairs, lone halves, reversed pairs) in quoted identifiers and string literals
+    for hi, lo in (('d800', 'dc00'), ('dbff', 'dfff'), ('dbff', 'dc00'), ('dbfe', 'dfff'), ('d7ff', 'dc00'), ('dc00', 'd800'), ('d800', 'dbff'), ('dbff', 'e000')):
+        specs.append(list('"\\u' + hi + '\\u' + lo + '"')); specs.append(list('`"\\u' + hi + '\\u' + lo + '"`'))
+    specs += [list('"\\udbff"'), list('"\\udc00"'), list('"\\uDBFF\\uDFFF"'), ['"', '\\', 'u', 'd', 'b', ('set', 'efEF'), ('set', 'efEF'), '\\', 'u', 'd', ('set', 'cfCF'), ('set', '0fF'), ('set', '0fF'), '"']]
     specs = [s for s in specs if s]
     LJ.run_sharded(run, PROG, specs, 'mirsym: delimited lexemes with symbolic content vs reference lexer', keyprefix='c09')
     import time as _t
